@@ -3,6 +3,7 @@
  * events:  CALL <call_id> : <payload-hex>
  *          DS <k> <call_id> <size> : <struct image>     (typed entry point k of c02_calls.h; ints 2,3 are for the model)
  *          ITER <r1> <r2> <r3> :                          (results of the next espconn_sent calls, then 0)
+ *          BOOTRR <n> :                                   (first line only: value of next_rr_id before the first call)
  * outputs: RET <rr_id as unsigned> | WIRE : <bytes given to espconn_sent with result 0> | HARDERR |
  *          SENDBUFEXCEEDED | OUTBUFOVERFLOW | RESTART */
 #include <string.h>
@@ -18,6 +19,7 @@
 #include "drvmain.h"
 
 void supla_esp_devconn_iterate(void *timer_arg);
+void vp_c02_set_next_rr(void *proto, unsigned v);
 _supla_int_t srpc_async_call(void *_srpc, unsigned _supla_int_t call_id, char *data, unsigned _supla_int_t data_size);
 
 static void handler(void *srpc, unsigned _supla_int_t rr_id, unsigned _supla_int_t call_id, void *user, unsigned char ver) {
@@ -51,7 +53,9 @@ static void run_case(int n, char **lines) {
     char *l = lines[i];
     char *c = strchr(l, ':');
     int len = c ? hex2bytes(c + 1 + (c[1] == ' '), buf, sizeof buf) : 0;
-    if (strncmp(l, "CALL", 4) == 0) {
+    if (strncmp(l, "BOOTRR", 6) == 0) {
+      if (i == 0) vp_c02_set_next_rr(vs_proto(srpc), (unsigned)strtoull(l + 6, NULL, 10));
+    } else if (strncmp(l, "CALL", 4) == 0) {
       unsigned long long cid = strtoull(l + 4, NULL, 10);
       /* an exact-size heap copy so that ASan sees any read beyond the payload */
       char *d = len > 0 ? malloc(len) : NULL;
